@@ -160,6 +160,10 @@ def mutable_objects(z):
     return bad
 
 
+class LeaveByException(Exception):
+    pass
+
+
 class Run:
     def __init__(self, kind):
         self.z = ZONES[kind % 2]("example.", relativize=kind < 2)
@@ -202,19 +206,39 @@ class Run:
                 return Err(1, "KeyError")
             self.handles.append(t)
             return [len(self.handles) - 1, t.version.id, txn_content(t)]
-        if c == 3:
+        if c in (3, 12):
             h = op[1]
             if not (0 <= h < len(self.handles)):
                 return Err(999, "no such handle")
+            txn = self.handles[h]
+            how = op[2] if c == 12 else h % 2
             try:
-                if h % 2:
-                    self.handles[h].commit()
+                if how == 0:
+                    txn.rollback()
+                elif how == 1:
+                    txn.commit()
+                elif txn._ended:
+                    txn.rollback()       # `with` on an ended transaction does nothing: use the explicit call
+                elif how == 2:
+                    with txn:
+                        pass
                 else:
-                    self.handles[h].rollback()
+                    exc = [None, None, None, LeaveByException, SystemExit, KeyboardInterrupt, GeneratorExit][how]
+                    try:
+                        with txn:
+                            raise exc()
+                    except exc:
+                        pass
             except dns.transaction.AlreadyEnded:
                 return Err(3, "AlreadyEnded")
             except KeyError:
                 return Err(103, "KeyError in set.remove")
+            # however it was left, the transaction is over: using it must raise
+            try:
+                txn.get(key_name(2), "A")
+                return Err(196, "an ended read transaction is still usable")
+            except dns.transaction.AlreadyEnded:
+                pass
             return None
         if c == 4:
             if z._write_txn is not None:
@@ -359,7 +383,10 @@ def gen_history(rng, length):
             opened += 1
         elif r < 0.80:
             if opened:
-                ops.append([3, rng.randint(0, opened)])
+                if rng.random() < 0.5:
+                    ops.append([3, rng.randint(0, opened)])
+                else:
+                    ops.append([12, rng.randint(0, opened), rng.randrange(7)])
         elif r < 0.93:
             ops.append(gen_policy(rng, ncommit))
         elif r < 0.96:
@@ -383,6 +410,7 @@ ALPHABET = [
     [[9, 2]], [[9, None]], [[10, 0]],
     [[2, 2]],                   # reader by serial
     [[4, 0], [6, 2], [7]],      # a transaction that only deletes a name (commits iff the name existed)
+    [[12, 0, 3]],               # reader 0 leaves its `with` block through an exception
 ]
 
 
@@ -435,7 +463,7 @@ def cases(ctx):
                 ops.append(rng.choice([[0], [1, rng.randint(1, j + 3)]]))
                 opened += 1
             if opened and rng.random() < 0.4:
-                ops.append([3, rng.randrange(opened)])
+                ops.append(rng.choice([[3, rng.randrange(opened)], [12, rng.randrange(opened), rng.randrange(2, 7)]]))
         yield "retention", [i % 4, ops]
 
 
@@ -547,7 +575,7 @@ def oracle(ctx, kind, case, out):
         if c == 2 and not ok and res.code == 1:
             if any(dict(map(tuple, content[i])).get(0) == op[1] for i in prev_ids):
                 fail("reader(serial=) refused a retained serial", n, serial=op[1])
-        if c == 3 and ok:
+        if c in (3, 12) and ok:
             open_handles.discard(op[1])
         if c in (9, 10) and ok:
             policy = policy_fn(op)
@@ -576,7 +604,7 @@ def oracle(ctx, kind, case, out):
             if not policy(cur_ids, i, content[i]):
                 fail("pruned a version the policy wanted to keep", n, dropped=i, ids=cur_ids)
             cur_ids.remove(i)
-        if dropped and c not in (3, 7, 9, 10):
+        if dropped and c not in (3, 7, 9, 10, 12):
             fail("versions pruned by an operation that does not prune", n)
         # -- and nothing prunable is left (maximality)
         head = ids[0]
